@@ -15,7 +15,7 @@ pub fn probes(cols: usize, rows: usize) -> Vec<(&'static str, String)> {
         ("immediate", "".into()),
         ("pen+charset+position", "X".into()),
         ("origin+top-margin", "\x1b[1;1HX".into()),
-        ("auto-wrap", "\x1b[9999CXY".into()),
+        ("auto-wrap", "\x1b[65535C\x1b[65535CXY".into()),
         ("active-charset", "lq~".into()),
         ("g0", "\x0flq~".into()),
         ("g1", "\x0elq~".into()),
@@ -24,10 +24,10 @@ pub fn probes(cols: usize, rows: usize) -> Vec<(&'static str, String)> {
         ("insert-mode-2", "ab\x1b[1Dc".into()),
         ("saved-ctx-active", "\x1b8X".into()),
         ("saved-ctx-active-origin", "\x1b8\x1b[1;1HX".into()),
-        ("saved-ctx-active-autowrap", "\x1b8\x1b[9999CXY".into()),
+        ("saved-ctx-active-autowrap", "\x1b8\x1b[65535C\x1b[65535CXY".into()),
         ("saved-ctx-other-screen", "\x1b[?1047h\x1b8X".into()),
         ("saved-ctx-both", "\x1b[?1047h\x1b8X\x1b[?1047l\x1b8Y".into()),
-        ("saved-ctx-other-origin", "\x1b[?1047h\x1b8\x1b[1;1HX\x1b[9999CYZ".into()),
+        ("saved-ctx-other-origin", "\x1b[?1047h\x1b8\x1b[1;1HX\x1b[65535C\x1b[65535CYZ".into()),
         ("return-1047", "\x1b[?1047lQ".into()),
         ("return-1047-restore", "\x1b[?1047l\x1b8Q".into()),
         ("return-1049", "\x1b[?1049lQ".into()),
@@ -53,12 +53,12 @@ pub fn probes(cols: usize, rows: usize) -> Vec<(&'static str, String)> {
     ];
     v.push(("tab-stops-forward", format!("\r{}X", "\t".repeat(cols / 4 + 2))));
     v.push(("tab-stops-forward-each", format!("\r{}", "\tX".repeat((cols / 8 + 2).min(20)))));
-    v.push(("tab-stops-backward", format!("\x1b[9999C{}X", "\x1b[Z".repeat(3))));
+    v.push(("tab-stops-backward", format!("\x1b[65535C\x1b[65535C{}X", "\x1b[Z".repeat(3))));
     v.push(("region-bottom-lf", format!("{}X", "\n".repeat(rows + 1))));
     v.push(("region-top-ri", format!("{}X", "\x1bM".repeat(rows + 1))));
-    v.push(("bottom-margin", format!("\x1b[9999B{}X", "\n".repeat(2))));
+    v.push(("bottom-margin", format!("\x1b[65535B\x1b[65535B{}X", "\n".repeat(2))));
     v.push(("top-margin-abs", format!("\x1b[?6l\x1b[1;1H{}X", "\x1bM".repeat(2))));
-    v.push(("bottom-margin-abs", "\x1b[?6l\x1b[9999;1H\n\nX".to_string()));
+    v.push(("bottom-margin-abs", "\x1b[?6l\x1b[65535;1H\x1b[65535B\n\nX".to_string()));
     v.push(("origin-toggle", "\x1b[1;1H\x1b[?6hX".to_string()));
     v.push(("scroll-up-region", "\x1b[2SX".to_string()));
     v
@@ -161,7 +161,20 @@ impl Check for C11 {
             // ---- snapshot / restart ----
             let (cols, rows) = live.vt.size();
             let cur = live.vt.cursor();
-            let zone_a = live.hid.origin && (cur.row < live.hid.top || cur.row > live.hid.bottom);
+            let zone_a_wide = live.hid.origin && (cur.row < live.hid.top || cur.row > live.hid.bottom);
+            let sv = live.hid.saved[live.hid.alt as usize];
+            // Known finding F4, identified by the state in which dump()'s workaround for "origin mode
+            // on, cursor outside the scroll region" (CSI u, then relative moves) cannot reproduce the
+            // terminal: CSI u brings back the saved context's origin / auto-wrap modes, so they must
+            // agree with the current ones (auto-wrap off can still be re-established afterwards), and
+            // the relative vertical move from the saved row is clamped by the margins unless it starts
+            // on the same side outside the region. Every other snapshot in that zone must restore.
+            let modes_lost = !sv.origin || (!sv.awm && live.hid.awm);
+            let reachable = cur.row == sv.row || (cur.row < sv.row && sv.row < live.hid.top) || (cur.row > sv.row && sv.row > live.hid.bottom);
+            let zone_a = zone_a_wide && (modes_lost || !reachable);
+            if zone_a_wide && !zone_a {
+                st.bump("origin_outside_region_expected_to_restore");
+            }
             let zone_b = live.hid.alt && live.hid.resized_in_alt;
             let pstate = live.parser.state;
             let limit = t.config.limit;
